@@ -64,6 +64,10 @@ impl SegmentLogWriter {
             .len();
 
         log_size_bytes.store(actual_log_size, Ordering::Release);
+        #[cfg(feature = "iggy_verif")]
+        if actual_log_size == 0 {
+            crate::verif::fs_event("create", file_path, 0);
+        }
 
         trace!("Opened log file for writing: {file_path}, size: {actual_log_size}");
 
@@ -146,6 +150,12 @@ impl SegmentLogWriter {
                     format!("Failed to flush log file: {}. {error}", self.file_path)
                 })
                 .map_err(|_| IggyError::CannotWriteToFile)?;
+            #[cfg(feature = "iggy_verif")]
+            crate::verif::fs_event(
+                "append",
+                &self.file_path,
+                (header.len() + batch_bytes.len()) as u64,
+            );
 
             Ok(())
         } else {
